@@ -2,12 +2,13 @@
 //
 // Oracle: three executions of the same op sequence on the same realm code agree
 // on every returned value and on the final Dump():
-//   (A) one MsgCall per op, one tx per block, with app restarts in between
-//       (objects are persisted and re-loaded from bytes, caches cold);
-//   (B) the whole sequence inside ONE MsgRun script (objects stay in memory,
-//       only realm-boundary finalization happens);
-//   (C) the same source compiled as an ordinary non-realm main package and run
-//       by the GnoVM purely in memory (no realm, no persistence at all).
+//
+//	(A) one MsgCall per op, one tx per block, with app restarts in between
+//	    (objects are persisted and re-loaded from bytes, caches cold);
+//	(B) the whole sequence inside ONE MsgRun script (objects stay in memory,
+//	    only realm-boundary finalization happens);
+//	(C) the same source compiled as an ordinary non-realm main package and run
+//	    by the GnoVM purely in memory (no realm, no persistence at all).
 package c03
 
 import (
